@@ -111,6 +111,8 @@ class Arr:
                     inst.e = xt.choose(["X", "Y"])
                 if xt is not None and xt.chance(20):
                     inst.o = xt.choose(["X", "Y"])
+                if xt is not None and key in ("O", "P") and xt.chance(12):
+                    inst.k = 9  # this instance's output hook hides the object: it returns None
                 out.append(inst)
         self.at[key] = out
         return out
@@ -176,6 +178,8 @@ def make_directive(dname, sname):
         async def on_pre_output_coercion(self, da, nxt, value, ctx, info):
             await self._pre("output", da, ctx)
             v = await nxt(value, ctx, info)
+            if da.get("k") == 9 and v is not None and not isinstance(v, str):
+                return None  # what a hook returns is what the next stage sees: the object is null from here on
             return tag_out(da["n"], v)
 
         async def on_schema_execution(self, da, nxt, schema, document, parsing_errors, operation_name, context, variables, initial_value):
@@ -423,10 +427,13 @@ def run_one(seed, preset=None, tier="quick", want_case=False):
     for i in range(n_echo):
         alias = "e%d" % i
         args_txt, sem = [], {}
+        nt = tape.sub("topnull")
         if dt.chance(60):
             raw = dt.choose(["v", "w"])
             mode = dt.choose(["lit", "var"])
-            args_txt.append('a: "%s"' % raw if mode == "lit" else "a: $%s" % newvar("S", raw))
+            if nt.chance(15):
+                raw = None  # a null given directly as the argument's value (literal `null` / null variable)
+            args_txt.append(('a: "%s"' % raw if raw is not None else "a: null") if mode == "lit" else "a: $%s" % newvar("S", raw))
             sem["a"] = (raw, mode)
         if dt.chance(60):
             obj = sem_value_In(dt)
@@ -436,7 +443,9 @@ def run_one(seed, preset=None, tier="quick", want_case=False):
         if dt.chance(40):
             ev = dt.choose(["A", "B", "C"])
             mode = dt.choose(["lit", "var"])
-            args_txt.append("e: " + (ev if mode == "lit" else "$" + newvar("E", ev)))
+            if nt.chance(15):
+                ev = None
+            args_txt.append("e: " + ((ev or "null") if mode == "lit" else "$" + newvar("E", ev)))
             sem["e"] = (ev, mode)
         if dt.chance(40):
             lv = [dt.choose(["p", "q"]) for _ in range(dt.rint(0, 2))]
@@ -478,6 +487,10 @@ def run_one(seed, preset=None, tier="quick", want_case=False):
     u_data = [dt.choose([("O", {"s": "x", "e": "A", "l": []}), ("P", {"s": "z"}), None]) for _ in range(dt.rint(0, 3))]
     fs_data = [dt.choose([("O", {"s": "k", "e": None, "l": []}), ("P", {"s": None})]) for _ in range(dt.rint(0, 2))]
     expected = {}
+
+    def hidden(tn):
+        return any(i.k == 9 for i in arr.at.get(tn, []))
+
     order = [f.split(":")[0].split("{")[0].split(" ")[0].split("(")[0].strip() for f in fields]
     byalias = {p[1]: p for p in plans}
     seen_alias = set()
@@ -507,6 +520,9 @@ def run_one(seed, preset=None, tier="quick", want_case=False):
             qd, qs = qd
             ex.field("Query.o", qd, None)
             ex.out_obj("O")
+            if hidden("O"):
+                expected["o"] = None
+                continue
             s = ex.field("O.s", qs, o_data["s"])
             e = ex.field("O.e", [], o_data["e"])
             ex.field("O.l", [], None)
@@ -522,6 +538,9 @@ def run_one(seed, preset=None, tier="quick", want_case=False):
                 tn, d = item
                 ex.out_obj("U")
                 ex.out_obj(tn)
+                if hidden(tn):
+                    outl.append(None)
+                    continue
                 if tn == "O":
                     s = ex.field("O.s", [], d["s"])
                     e = ex.field("O.e", [], d["e"])
@@ -535,6 +554,9 @@ def run_one(seed, preset=None, tier="quick", want_case=False):
             for tn, d in fs_data:
                 ex.out_obj("F")
                 ex.out_obj(tn)
+                if hidden(tn):
+                    outl.append(None)
+                    continue
                 s = ex.field(tn + ".s", [], d["s"])
                 outl.append({"s": ex.out_S(s)})
             expected["fs"] = outl
